@@ -9,6 +9,7 @@ from gpytorch import settings as S
 
 from pbt import gpmodel as G
 from pbt import kern
+from pbt import mtmodel as MT
 from pbt.core import Ctx, Discard, PropertySpec, Reject, Subcheck
 
 T = torch.tensor
@@ -179,6 +180,64 @@ def run_fantasy(case, ctx: Ctx):
               f"shared={[s['shared'] for s in case['steps']]}", *{f"leaf={l['k']}" for l in kern.leaves(case["kernel"])})
 
 
+# ---------------------------------------------------------------------------------------------------
+# Kronecker multitask models
+# ---------------------------------------------------------------------------------------------------
+@st.composite
+def multitask_fantasy_case(draw):
+    case = draw(MT.multitask_case(nmax=4, nsmax=2, test_batches=False))
+    steps = []
+    for _ in range(draw(st.integers(1, 2))):
+        m = draw(st.integers(1, 3))
+        steps.append({"m": m, "Xf": draw(kern.points(m, case["d"])), "yf": draw(kern.arr([m, case["t"]], kern.REAL))})
+    case["steps"] = steps
+    case["fpv"] = draw(st.booleans())
+    case["detach"] = draw(st.booleans())
+    return case
+
+
+def run_multitask_fantasy(case, ctx: Ctx):
+    t, n, ns, d = case["t"], case["n"], case["ns"], case["d"]
+    ctx.cls = f"multitask|{MT.cell(case)}|steps{len(case['steps'])}|m{max(s['m'] for s in case['steps'])}|fpv{int(case['fpv'])}"
+    X, y, Xs = T(case["X"]), T(case["y"]), T(case["Xs"])
+    with ctx.observing("build"):
+        model, lik = MT.build_multitask(case)
+        model.eval()
+        lik.eval()
+    cur_X, cur_y = X, y
+    with S.fast_pred_var(case["fpv"]), S.detach_test_caches(case["detach"]), torch.no_grad():
+        with ctx.observing("source.predict"):
+            before = model(Xs)
+            bm, bc = before.mean.clone(), before.covariance_matrix.clone()
+            sd_before = _state(model)
+        fm = model
+        for step in case["steps"]:
+            Xf, yf = T(step["Xf"]), T(step["yf"])
+            with ctx.observing("get_fantasy_model"):
+                fm = fm.get_fantasy_model(Xf, yf)
+            cur_X = torch.cat([cur_X, Xf], -2)
+            cur_y = torch.cat([cur_y, yf], -2)
+            with ctx.observing("own_prior"):
+                Kxx, Kxs, Kss, mx, ms = G.own_prior_blocks(model, cur_X, Xs)
+                mx, ms = mx.reshape(-1), ms.reshape(-1)
+            mean_w, cov_w, kappa, A = G.dense_conditional(Kxx, Kxs, Kss, mx, ms, None, cur_y.reshape(-1), smat=MT.ref_noise(case, cur_X.shape[-2]))
+            tol = max(G.chol_tol(kappa, kern.smooth_at_zero(case["kernel"])), 1e-9)
+            scale = max(1.0, float(cov_w.abs().max()), float(mean_w.abs().max()))
+            with ctx.observing("fantasy.predict"):
+                out = fm(Xs)
+                gm, gc = out.mean, out.covariance_matrix
+            ctx.close("fantasy.mean", gm, mean_w.reshape(ns, t), rtol=tol, atol=tol, scale=scale)
+            ctx.close("fantasy.cov", gc, cov_w, rtol=tol, atol=tol, scale=scale)
+        with ctx.observing("source.after"):
+            sd_after = _state(model)
+            after = model(Xs)
+        ctx.check("source.prediction_bitwise", torch.equal(after.mean, bm) and torch.equal(after.covariance_matrix, bc), "source prediction changed")
+        ctx.check("source.state_dict", all(torch.equal(sd_after[k], sd_before[k]) for k in sd_before), "source state_dict changed")
+        ctx.check("source.train_data", torch.equal(model.train_inputs[0], X) and torch.equal(model.train_targets, y), "source training data changed")
+    ctx.set_nontrivial(True)
+    ctx.label("multitask", f"mt.steps={len(case['steps'])}", f"mt.m={max(s['m'] for s in case['steps'])}", f"mt.fpv={int(case['fpv'])}", MT.cell(case))
+
+
 RULE = ("exact-GP recipe (kernel trees of depth <= 1; Gaussian / fixed-noise / fixed + learned noise; model batch (), (2,), (3,)) x 1-3 successive "
         "get_fantasy_model calls (fantasy batch (), (2,), (3,); shared or per-fantasy inputs; 1-2 points each; call-time noise for fixed-noise "
         "likelihoods) x fast_pred_var x detach_test_caches. Oracle: dense conditional on the concatenated, batch-expanded data; bitwise comparison "
@@ -187,6 +246,7 @@ RULE = ("exact-GP recipe (kernel trees of depth <= 1; Gaussian / fixed-noise / f
 
 SUBCHECKS = [
     Subcheck("fantasy.default", run_fantasy, strategy=fantasy_case, quick=700, thorough=20000, min_shard=30),
+    Subcheck("fantasy.multitask", run_multitask_fantasy, strategy=multitask_fantasy_case, quick=300, thorough=8000, min_shard=30),
 ]
 
 SPEC = PropertySpec(
